@@ -22,6 +22,42 @@ CHECKS = {
         "note": _BASE_NOTE + "Spec tables embedded from EN 302 636-4-1 V1.4.1 clause 9 and EN 302 636-5-1 clause 7; ST code "
                 "points only checked to fit 5 bits.",
     },
+    "C04": {
+        "technique": "static analysis: whole-program may-raise summaries (exception-class fixpoint over the resolved call graph "
+                     "with callback slots resolved by a wiring table) checked against the handlers of each receive loop",
+        "text": "Decides that no exception CLASS can propagate from the wired receive-callback closure (GN router, verify "
+                "service, BTP router, CAM/DENM/VAM reception, LDM adaptation, clustering) out of RawLinkLayer.receive or "
+                "PythonCV2XLinkLayer.callback_handler_loop, that no handler catching such an exception leaves the loop, that "
+                "nothing escapes the thread function, and that the raw link layer delivers only frames addressed to the own "
+                "MAC or broadcasts not sent by itself. Reasoning is over exception classes, hence over every frame. Does NOT "
+                "decide that later frames are processed 'as if the bad frame had never been received' (state equivalence is "
+                "value level).",
+        "note": _BASE_NOTE + "Implicit AttributeError/TypeError of Python dynamism are not modelled as sources; asn1tools, ecdsa, "
+                "tinydb, dateutil and application callbacks are treated as raising Exception; sockets raise OSError.",
+    },
+    "C15": {
+        "technique": "static analysis: lockset (held-locks dataflow over `with` regions + entry locksets), critical-section "
+                     "atomicity, lock-order graph over resolved calls, frozen-dataclass / single-snapshot rules",
+        "text": "Decides the schedule-independent necessary conditions of C15: every access to the 13 shared fields of the GN "
+                "router / location table holds the lock the shared-state table names; read-then-write of one field stays in "
+                "one critical section (CBF test+remove, LS pop+flush, sequence-number RMW); CBF timer sends only after removing "
+                "its key and outside the lock; the acquired-while-held graph is acyclic and no non-reentrant Lock is re-acquired "
+                "through calls; position-vector classes are frozen and never built from several reads of a shared PV. Does NOT "
+                "decide the claims as schedule properties (observed numbers, exactly-once flush) nor thread death by I/O faults.",
+        "note": _BASE_NOTE + "The shared-state table is frozen in rules/c15.py (one reason per row, confirmed by reading every "
+                "access) and fails closed (ANALYSIS-ERROR) when a row matches nothing; only `with <lock>:` locking is understood "
+                "(explicit acquire()/release() aborts the analysis).",
+    },
+    "C16": {
+        "technique": "static analysis: lockset, critical-section atomicity, snapshot/iteration discipline and lock-order graph "
+                     "for the in-memory LDM",
+        "text": "Decides: every access to the store dictionary, id counter, provider/consumer registries, subscription list and "
+                "last-notified map holds the owning RLock; read-then-write of one field is one critical section; live shared "
+                "containers are never returned, and never mutated while a loop iterates them without leaving the loop; the "
+                "maintenance-thread wrapper locks every delegated store call; lock graph acyclic; consumer callbacks invoked "
+                "with no LDM lock held. Does NOT decide linearizability of multi-step IF.LDM operations, nor TinyDB.",
+        "note": _BASE_NOTE + "Shared-state table frozen in rules/c16.py; fails closed when a row matches nothing.",
+    },
 }
 
 NOT_APPLICABLE = {}
